@@ -264,10 +264,11 @@ def aluScalar (i : Insn) (a b : Option Nat) : Kind :=
   .scalar (cap (aluBound w (code i) (cap a) (cap b) sh))
 
 def ptrAddImm (d : Kind) (k : Int) : R Kind :=
+  let fits (o : Int) : Bool := decide (-536870912 < o) && decide (o < 536870912)       -- BPF_MAX_VAR_OFF
   match d with
-  | .fp o => .ok (.fp (o + k))
-  | .mapval f o m => .ok (.mapval f (o + k) m)
-  | .pkt o r => .ok (.pkt (o + k) r)
+  | .fp o => if fits (o + k) then .ok (.fp (o + k)) else .error "ptr-alu:value makes fp pointer be out of bounds"
+  | .mapval f o m => if fits (o + k) then .ok (.mapval f (o + k) m) else .error "ptr-alu:value makes map_value pointer be out of bounds"
+  | .pkt o r => if fits (o + k) then .ok (.pkt (o + k) r) else .error "ptr-alu:value makes pkt pointer be out of bounds"
   | .mapvalOrNull _ _ => .error "null:pointer arithmetic on map_value_or_null prohibited, null-check it first"
   | .pktEnd => .error "ptr-alu:pointer arithmetic on pkt_end prohibited"
   | .mapfd _ => .error "ptr-alu:pointer arithmetic on map_ptr prohibited"
@@ -412,7 +413,7 @@ def refineNull (a : AbsState) (id : Nat) (nonNull : Bool) : AbsState :=
 /-- every packet pointer learns that `n` bytes from the start of the packet are readable; `o` = offset of the compared
 pointer, `opn` = the comparison was strict (as `find_good_pkt_pointers`) -/
 def refinePkt (a : AbsState) (o : Int) (opn : Bool) : AbsState :=
-  if o < 0 || (o == 0 && opn) then a else
+  if o < 0 || (o == 0 && opn) || o > 65535 then a else      -- MAX_PACKET_OFF
   let n := o.toNat + (if opn then 1 else 0)
   mapRegs a fun k =>
     match k with
